@@ -289,6 +289,16 @@ func init() {
 			o := gen.GraphOpts{Modules: ents + 1 + gr.Intn(5), Entries: ents, AllowDyn: gr.Bool(), AllowCycle: gr.Bool(), AllowStar: gr.Bool(), SideEffectFreeDecls: gr.Bool(), CollidingNames: gr.Bool(), NoTopLevelMutation: true}
 			g := gen.GenGraph(gr, o)
 			mergeStats(rep, "gen:", g.Stats)
+			if gr.Chance(1, 3) {
+				// a binding that reaches an entry's chunk ONLY as a cross-chunk import (re-exported with
+				// `export *` from a module that lives in a shared chunk) next to a module of the same chunk
+				// that declares the same top-level names
+				g.Files["sh.js"] = "export let value = \"sh:value\";\nexport function describe() { return \"sh:\" + value; }\np(\"sh:start\");\n"
+				g.Files["oth.js"] = "var value = \"oth:value\";\nfunction describe() { return \"oth:\" + value; }\np(\"oth:start\", value, describe());\n"
+				g.Files["m0.js"] = "export * from \"./sh.js\";\nimport \"./oth.js\";\n" + g.Files["m0.js"]
+				g.Files["m1.js"] = "import { value as shValue, describe as shDescribe } from \"./sh.js\";\np(\"m1:sh\", shValue, shDescribe());\n" + g.Files["m1.js"]
+				rep.stat("gen:star-reexport-next-to-same-names")
+			}
 			opt := "fmt=esm" + pickS(gr, "", "", ",mi", ",ms,mi,mw", ",ms") + pickS(gr, "", "", ",entrynames=[name]-[hash],chunknames=c-[hash]", ",chunknames=[name]-[hash]")
 			if gr.Chance(1, 6) {
 				opt += ",publicpath=https://cdn.example/x/"
